@@ -52,6 +52,9 @@ class Sym:
         return (self.base, self.a, self.b)
 
 
+NEIGHBOUR_PREDICATES = {'has_larger_input'}   # completed by run_neighbour_predicates from the class itself
+
+
 class LeafEval:
     """interprets one block of fill_and_pair under a valuation of the neighbour predicates"""
 
@@ -132,10 +135,10 @@ class LeafEval:
                 r = self.call_lambda(lam, e, want='any')
                 return r if r is not None else 0
             args = ir.call_args(e)
-            if name == 'has_larger_input':
+            if name in NEIGHBOUR_PREDICATES:
                 s = self.sym(args[0])
-                me = self.sym(args[1])
-                if me.key() != (1, 0, 0) or s.base != 1:
+                # (that the predicate compares with the current cell i is decided per call site by E8-predicate)
+                if s.base != 1:
                     raise predeval.Unknown('has_larger_input not relative to the current square')
                 off = (s.a, s.b)
                 if off not in self.val:
@@ -267,6 +270,141 @@ def blocks_of_fill_and_pair(fn):
     return blocks, lambdas, top
 
 
+def run_neighbour_predicates(chk, fn, F):
+    """E8-predicate: fill_and_pair decides "is this neighbour larger than the current cell" in the total order
+    (value, then index). Every call of a neighbour predicate (a bool member function of the class that reads
+    input(a)) is evaluated with the predicate's own body inlined, on the three relations of the two values; the index
+    comparison is resolved from the call site: the neighbour a = i + da + db*dy lies after i iff db > 0, or db == 0
+    and da > 0 (|da| <= 1 < dy, the entry point requires at least two columns). The predicate must answer
+    `value(a) > value(i)  or  (value(a) == value(i) and a after i)`. The leaf enumeration below then treats every
+    such call as the neighbour's truth value."""
+    cls = fn.get('cls')
+    helpers = {}
+    for f in F.functions:
+        if f.get('cls') != cls or f.get('body') is None or f is fn:
+            continue
+        if (f.get('ret') or '').strip() != 'bool' or len(f.get('params', [])) < 2:
+            continue
+        if ir.contains(f['body'], lambda y: ir.is_call(y) and ir.call_name(y) == 'input'):
+            helpers[f['name']] = f
+    if not helpers:
+        raise AnalysisBroken('C14: no neighbour predicate found in the class of fill_and_pair')
+    NEIGHBOUR_PREDICATES.clear()
+    NEIGHBOUR_PREDICATES.update(helpers)
+    blocks, lambdas, _top = blocks_of_fill_and_pair(fn)
+    probe = LeafEval(dict(lambdas), {})
+    n = 0
+    bad = None
+    ties = []
+    for x in ir.walk(fn['body']):
+        if not (ir.is_call(x) and ir.call_name(x) in helpers):
+            continue
+        h = helpers[ir.call_name(x)]
+        args = ir.call_args(x)
+        try:
+            sa = probe.sym(args[0])
+        except predeval.Unknown as e:
+            raise AnalysisBroken('C14: neighbour predicate call at line %s: %s' % (x.get('l'), e))
+        if sa.base != 1 or (sa.a, sa.b) == (0, 0):
+            raise AnalysisBroken('C14: neighbour predicate call at line %s is not relative to the current cell'
+                                 % x.get('l'))
+        after = sa.b > 0 or (sa.b == 0 and sa.a > 0)
+        pa = h['params'][0]['n']
+        # which parameter carries the current cell's index / value, from the call site
+        idx_b = None
+        val_b = None
+        for p_, a_ in zip(h['params'][1:], args[1:]):
+            t = ir.show(a_).replace(' ', '')
+            if t == 'i':
+                idx_b = p_['n']
+            elif t == 'f':
+                val_b = p_['n']
+            else:
+                raise AnalysisBroken('C14: neighbour predicate at line %s compares with `%s`, not with the current '
+                                     'cell (i, f)' % (x.get('l'), t))
+        if val_b is None:
+            raise AnalysisBroken('C14: neighbour predicate %s does not take the current value' % h['name'])
+        n += 1
+        for rel_ in ('lt', 'eq', 'gt'):          # value(a) rel value(i)
+            loc = {}
+
+            def term(e):
+                e = ir.skipcasts(e)
+                if e is None:
+                    return None
+                if ir.is_call(e) and ir.call_name(e) == 'input' and ir.show(ir.call_args(e)[0]) == pa:
+                    return 'VA'
+                if e.get('k') == 'DeclRefExpr':
+                    nme = e.get('n')
+                    if nme == val_b:
+                        return 'VB'
+                    if nme == pa:
+                        return 'IA'
+                    if nme == idx_b:
+                        return 'IB'
+                    return loc.get(nme)
+                return None
+
+            def oracle(e, env, rel_=rel_):
+                k = e.get('k')
+                if k == 'VarDecl':
+                    t = term(e.get('init')) if e.get('init') is not None else None
+                    if t:
+                        loc[e['n']] = t
+                        return t
+                    return None
+                if k in ('BinaryOperator', 'CXXOperatorCallExpr') and e.get('op') in ('<', '>', '<=', '>=', '==', '!='):
+                    cs = (e.get('c') or [])[-2:]
+                    l, r = term(cs[0]), term(cs[1])
+                    if l is None or r is None:
+                        return None
+                    op = e['op']
+                    if {l, r} == {'VA', 'VB'}:
+                        c_ = {'lt': -1, 'eq': 0, 'gt': 1}[rel_]
+                        if l == 'VB':
+                            c_ = -c_
+                    elif {l, r} == {'IA', 'IB'}:
+                        c_ = 1 if after else -1
+                        if l == 'IB':
+                            c_ = -c_
+                    else:
+                        return None
+                    return {'<': c_ < 0, '>': c_ > 0, '<=': c_ <= 0, '>=': c_ >= 0, '==': c_ == 0, '!=': c_ != 0}[op]
+                if k == 'CXXThrowExpr':
+                    raise predeval.Unknown('the predicate throws on this valuation')
+                return None
+            try:
+                got = predeval.Evaluator(oracle).run(h['body'])
+            except predeval.Unknown as e:
+                raise AnalysisBroken('C14: neighbour predicate %s has a shape the evaluator does not know: %s'
+                                     % (h['name'], e))
+            if rel_ == 'eq':
+                # the tie-break is arbitrary but has to be one rule for all pairs: "the later cell is larger" or
+                # "the earlier cell is larger" - collected per call site, compared below
+                ties.append((x, h['name'], (sa.a, sa.b), got, got == after))
+                continue
+            exp = rel_ == 'gt'
+            if got is not exp and bad is None:
+                bad = (x, h['name'], (sa.a, sa.b), rel_, got, exp)
+    chk.count('neighbour predicate call sites', n)
+    if n < 24:
+        raise AnalysisBroken('C14: only %d neighbour predicate calls found in fill_and_pair' % n)
+    later_wins = [t for t in ties if t[4]]
+    earlier_wins = [t for t in ties if not t[4]]
+    if bad is None and later_wins and earlier_wins:
+        minority = later_wins if len(later_wins) < len(earlier_wins) else earlier_wins
+        t = minority[0]
+        bad = (t[0], t[1], t[2], 'eq', t[3], not t[3])
+    chk.ob('E8-predicate', 'fill_and_pair: every neighbour predicate call decides the total order (value, index) '
+           'against the current cell (%d call sites x 3 value relations)' % n, '%s:%d' % (HR, fn['line']),
+           bad is None, '' if bad is None else 'line %s: %s for the neighbour at offset (dx=%d, dy=%d), which lies %s '
+           'the current cell: when the two values are %s it answers %s, the order used by the other call sites requires '
+           '%s - on a tie two squares claim the same cell' % (bad[0].get('l'), bad[1], bad[2][0], bad[2][1],
+                                    'after' if (bad[2][1] > 0 or (bad[2][1] == 0 and bad[2][0] > 0)) else 'before',
+                                    {'lt': 'value(a) < value(i)', 'eq': 'equal', 'gt': 'value(a) > value(i)'}[bad[3]],
+                                    bad[4], bad[5]), key='E8|fill_and_pair|predicate')
+
+
 def run_leaves(chk, fn):
     blocks, lambdas, top = blocks_of_fill_and_pair(fn)
     total = 0
@@ -275,7 +413,7 @@ def run_leaves(chk, fn):
         offs = set()
         probe = LeafEval(dict(lambdas), {})
         for x in (y for s in stmts for y in ir.walk(s)):
-            if ir.is_call(x) and ir.call_name(x) == 'has_larger_input':
+            if ir.is_call(x) and ir.call_name(x) in NEIGHBOUR_PREDICATES:
                 try:
                     sy = probe.sym(ir.call_args(x)[0])
                     offs.add((sy.a, sy.b))
@@ -525,6 +663,29 @@ def run_line(chk, F):
     fn = fs[0]
     cmpname = fn['params'][-1]['n']
     where = '%s:%d' % (HL, fn['line'])
+    # every run that has read a value ends with the infinite interval of the global minimum: the routine is a goto
+    # state machine whose only way out, once the first value was read, is to fall off its end behind the label
+    # `infinite` (whose statement reports (minimum, +infinity)); a `return` after the first read skips that report
+    order = list(ir.walk(fn['body'], False))
+    first_read = None
+    for idx_, x in enumerate(order):
+        if x.get('k') in ('UnaryOperator', 'CXXOperatorCallExpr') and x.get('op') == '*' and \
+                ir.show(x).replace(' ', '').lstrip('(').startswith(('*it', '*(it')):
+            first_read = idx_
+            break
+    if first_read is None:
+        raise AnalysisBroken('C14: the first read of the input was not found in the 1-D routine')
+    late = [x for idx_, x in enumerate(order) if idx_ > first_read and x.get('k') == 'ReturnStmt']
+    labels = [x for x in order if x.get('k') == 'LabelStmt']
+    last = (fn['body'].get('c') or [None])[-1]
+    tail_ok = last is not None and ir.contains(last, lambda y: ir.is_call(y) and 'infinity' in ir.show(y))
+    ok = not late and tail_ok
+    chk.ob('E2-line-exit', 'the 1-D routine reports the infinite interval on every run that read a value: no return '
+           'after the first read, the body ends with out(minimum, +infinity)', where, ok,
+           '' if ok else ('a `return` at line %s leaves the routine after values were read: the interval '
+                          '(global minimum, +infinity) is never reported for such inputs' % late[0].get('l')
+                          if late else 'the last statement of the body no longer reports the infinite interval'),
+           key='E2|line|exit')
     # derived comparators
     lam = {}
     for x in ir.walk(fn['body']):
@@ -599,6 +760,7 @@ def run(tier, replay=None):
     fps = [f for f in F.functions if f['name'] == 'fill_and_pair']
     if len(fps) != 1:
         raise AnalysisBroken('C14: fill_and_pair not found')
+    run_neighbour_predicates(chk, fps[0], F)
     top = run_leaves(chk, fps[0])
     run_corners(chk, fps[0], top, F)
     run_union_find(chk, F)
